@@ -93,6 +93,27 @@ ClassesOf(k) ==
          Cls("otherreq", FALSE, "otherreq"),
          Cls("trailing", FALSE, "honest"),
          Cls("short",    FALSE, "honest") }
+    \* issuers as long-lived servers: a value is one encoded request; "accepted" = answered; what an answer is worth is
+    \* judged by the client state that made the request (the token verifies; for type 3 the blinded request key is the
+    \* reference's for THAT request).  Refusals have no consequences: whatever was refused before, an honest request
+    \* gets its own answer.
+    [] k \in {"t1issue", "t2issue"} -> {
+         Cls("honest",  TRUE,  "honest"),
+         Cls("honest2", TRUE,  "honest2"),
+         Cls("bad",     FALSE, "honest"),    \* same key id, an element that does not decode / a message above the modulus
+         Cls("short",   FALSE, "honest") }   \* ... one byte short
+    [] k = "t5issue" -> {
+         Cls("honest",  TRUE,  "honest"),    \* three elements
+         Cls("honest2", TRUE,  "honest2"),   \* one element
+         Cls("bad2",    FALSE, "honest"),    \* two of the three elements do not decode
+         Cls("bad1",    FALSE, "honest") }   \* the last one does not decode
+    [] k = "t3issue" -> {
+         Cls("honest",    TRUE,  "honest"),     \* client c, blind b, the registered origin
+         Cls("sameblind", TRUE,  "honest"),     \* client c, blind b, ANOTHER registered origin (same request key, other index key)
+         Cls("honest2",   TRUE,  "honest2"),    \* client c, a fresh blind
+         Cls("sigflip",   FALSE, "honest"),
+         Cls("unreg",     FALSE, "unreg"),
+         Cls("cut",       FALSE, "honest") }    \* the encoding without its last byte
     \* the generic batch issuer (one type-1 and one type-2 issuer configured); a value is an encoded batch request,
     \* the verdict "every entry of the response list is present"
     [] k = "batchissuer" -> {
